@@ -111,8 +111,8 @@ static void parentSpace(vf::Runner& R, Fam f, bool th) {
 
 // ------------------------------------------------------------------------------------------------------------------------------
 // compounds
-enum CKind { C_CONST = 0, C_SIMPLE, C_INV_GAMMA, C_INV_SIMPLE, C_MIX_GAMMA_EXPO, C_MIX_BETA_UNIF, C_MIX_GAUSS_SIMPLE, NCK };
-static const char* CKNAME[NCK] = {"constant", "simple", "invariant(gamma)", "invariant(simple)", "mixture(gamma,exponential)", "mixture(beta,uniform)", "mixture(gaussian,simple)"};
+enum CKind { C_CONST = 0, C_SIMPLE, C_INV_GAMMA, C_INV_SIMPLE, C_MIX_GAMMA_EXPO, C_MIX_BETA_UNIF, C_MIX_GAUSS_SIMPLE, C_MIX3, NCK };
+static const char* CKNAME[NCK] = {"constant", "simple", "invariant(gamma)", "invariant(simple)", "mixture(gamma,exponential)", "mixture(beta,uniform)", "mixture(gaussian,simple)", "mixture(gamma,exponential,beta)"};
 static const char* ckClass(int k) { return k == C_CONST ? "constant" : k == C_SIMPLE ? "simple" : (k == C_INV_GAMMA || k == C_INV_SIMPLE) ? "invariant" : "mixture"; }
 
 static std::unique_ptr<DiscreteDistributionInterface> simple3() {
@@ -132,6 +132,9 @@ static std::unique_ptr<ADD> makeCompound(int kind, size_t k, double a, double b,
     case C_MIX_BETA_UNIF: {
       std::vector<UP> v; v.push_back(UP(new BetaDiscreteDistribution(k, a, b))); v.push_back(UP(new UniformDiscreteDistribution((unsigned)k, 0., 1.)));
       return std::unique_ptr<ADD>(new MixtureOfDiscreteDistributions(v, std::vector<double>{w, 1 - w})); }
+    case C_MIX3: {   // three components: the weights are rebuilt from two conditional proportions on every parameter notification
+      std::vector<UP> v; v.push_back(UP(new GammaDiscreteDistribution(k, a, b))); v.push_back(UP(new ExponentialDiscreteDistribution(k, b))); v.push_back(UP(new BetaDiscreteDistribution(k, a, b)));
+      return std::unique_ptr<ADD>(new MixtureOfDiscreteDistributions(v, std::vector<double>{w, (1 - w) / 4, 3 * (1 - w) / 4})); }
     default: {
       std::vector<UP> v; v.push_back(UP(new GaussianDiscreteDistribution(k, a, b))); v.push_back(simple3());
       return std::unique_ptr<ADD>(new MixtureOfDiscreteDistributions(v, std::vector<double>{w, 1 - w})); }
@@ -207,20 +210,31 @@ static void compoundSpaces(vf::Runner& R, bool th) {
     std::vector<double> S = th ? std::vector<double>{0.1, 0.5, 1, 3, 10, 100} : std::vector<double>{0.1, 3};
     std::vector<double> W = {0.5, 0.1, 0, 1};
     int nS = (int)S.size(), nW = (int)W.size();
-    R.space(std::string("compound:nested:kind5:K8:M2:W4:S") + str(nS) + "x" + str(nS) + ":F4", (uint64_t)5 * 8 * 2 * nW * nS * nS * 4, [=](uint64_t idx, vf::Case& c) {
-      std::vector<int> dg = vf::digits(idx, {nS, nS, nW, 4, 2, 5, 8});
+    R.space(std::string("compound:nested:kind6:K8:M2:W4:S") + str(nS) + "x" + str(nS) + ":F6", (uint64_t)6 * 8 * 2 * nW * nS * nS * 6, [=](uint64_t idx, vf::Case& c) {
+      std::vector<int> dg = vf::digits(idx, {nS, nS, nW, 6, 2, 6, 8});
       double a = S[dg[0]], b = S[dg[1]], w = W[dg[2]]; int fu = dg[3]; bool med = dg[4]; int kind = C_INV_GAMMA + dg[5]; size_t k = KS[dg[6]];
       if ((kind == C_INV_SIMPLE) && (dg[0] || dg[1] || dg[6])) { c.tag("redundant(skipped)"); return; }
       std::string ctx = std::string(CKNAME[kind]) + " k=" + str(k) + " shapes=" + num(a) + "," + num(b) + " weight=" + num(w) + " median=" + str((int)med);
       c.site("compound-ctor");
-      std::unique_ptr<ADD> d = makeCompound(kind, k, kind == C_MIX_GAUSS_SIMPLE ? a - 1 : a, b, w);
+      std::unique_ptr<ADD> d;
+      // a weight vector the constructor refuses with the library's exception (first of three weights equal to 1: the conditional proportion
+      // of the second component is 0/0) is not an accepted construction; the statement speaks of the state after construction
+      try { d = makeCompound(kind, k, kind == C_MIX_GAUSS_SIMPLE ? a - 1 : a, b, w); }
+      catch (Exception& e) { c.tag("compound:construction-refused"); return; }
       if (med) { c.site("compound:setMedian"); d->setMedian(true); }
-      c.site(fu == 1 ? "compound:setNumberOfCategories" : fu == 2 ? "compound:setParameterValue" : "compound:restrictToConstraint");
+      c.site(fu == 1 ? "compound:setNumberOfCategories" : (fu == 2 || fu >= 4) ? "compound:setParameterValue" : "compound:restrictToConstraint");
       try {
         if (fu == 1) { d->setNumberOfCategories(k == 32 ? 3 : k + 1); ctx += " setNumberOfCategories(" + str(k == 32 ? 3 : k + 1) + ")"; }
         else if (fu == 2) {
           if (kind == C_INV_GAMMA || kind == C_INV_SIMPLE) { d->setParameterValue("p", 0.25); ctx += " setParameterValue(p,0.25)"; }
           else { d->setParameterValue("theta1", 0.25); ctx += " setParameterValue(theta1,0.25)"; }
+        } else if (fu == 4 || fu == 5) {
+          // a parameter notification that does not name a weight: the first (fu 4) / last (fu 5) parameter of a nested distribution
+          const ParameterList& pl = d->getParameters(); std::string nm; double nv = 0;
+          for (size_t i = 0; i < pl.size(); ++i) { const std::string& n = pl[i].getName(); bool shape = n.find("alpha") != std::string::npos || n.find("beta") != std::string::npos || n.find("lambda") != std::string::npos || n.find("sigma") != std::string::npos;
+            if (shape && (nm.empty() || fu == 5)) { nm = n; nv = pl[i].getValue() * 1.5 + 0.25; } }
+          if (nm.empty()) { c.tag("compound:no-nested-shape-parameter(skipped)"); return; }
+          ParameterList one; one.addParameter(Parameter(nm, nv)); d->matchParametersValues(one); ctx += " matchParametersValues(" + nm + "=" + num(nv) + ")";
         } else if (fu == 3) {
           IntervalConstraint ic(0, kind == C_MIX_BETA_UNIF ? 0.75 : 4, true, true);
           d->restrictToConstraint(ic); ctx += " restrictToConstraint(" + ic.getDescription() + ")";
@@ -370,6 +384,7 @@ struct CompSys : vf::SysBase {
       case C_INV_SIMPLE: P("p", {0.1, 0.5, 0, 1}); P("Simple.V1", {0.5, 0.25, 1}); P("Simple.theta1", {0.25, 1}); Rr(0, 4); Rr(0, 3); break;
       case C_MIX_GAMMA_EXPO: P("theta1", {0.5, 0.1, 1, 0}); P("1_Gamma.alpha", {1, 0.5, 3}); P("2_Exponential.lambda", {1, 3}); Rr(0, 4); Rr(0.5, 2); break;
       case C_MIX_BETA_UNIF: P("theta1", {0.5, 0.1, 1, 0}); P("1_Beta.alpha", {1, 0.5, 3}); P("1_Beta.beta", {1, 3}); Rr(0.1, 0.9); Rr(0, 0.5); break;
+      case C_MIX3: P("theta1", {0.5, 0.1, 0}); P("theta2", {0.25, 0.5, 1}); P("1_Gamma.alpha", {1, 3}); P("2_Exponential.lambda", {1, 3}); P("3_Beta.beta", {1, 0.5}); Rr(0, 4); Rr(0.25, 0.75); break;
       default: P("theta1", {0.5, 0.1, 1, 0}); P("1_Gaussian.mu", {0.5, 0, 1}); P("1_Gaussian.sigma", {1, 3}); P("2_Simple.V1", {0.5, 0.25}); Rr(-1, 4); Rr(0.25, 3); break;
     }
     for (double k : K) ops.push_back({O_SETK, "", k, 0, 0});
